@@ -1160,9 +1160,26 @@ func accContains(acc consensus.ElementAccumulator, elemHash types.Hash256, se ty
 // finish syncs the host, derives the updates and writes the line.
 func (w *world) finish(tr *vhlib.Trace, op string, pre string) {
 	res := "ok"
+	var readIDs []types.FileContractID
+	for _, c := range w.cons {
+		if !c.v1 {
+			readIDs = append(readIDs, c.id)
+		}
+	}
+	rdN, rdBad, rdFirst := 0, 0, ""
+	addReads := func(rd *pairReader) {
+		a, b, f := rd.finish(w.host)
+		rdN, rdBad = rdN+a, rdBad+b
+		if rdFirst == "" {
+			rdFirst = f
+		}
+	}
 	if w.stopAfter > 0 {
 		// the host is restarted between two batches of the catch-up
-		if res = w.host.syncStop(w.stopAfter); res == "stopped" {
+		rd := w.host.startReader(readIDs)
+		res = w.host.syncStop(w.stopAfter)
+		addReads(rd)
+		if res == "stopped" {
 			w.host.restart(w.t)
 			tr.Count("restart:mid_catchup")
 			res = "ok"
@@ -1170,8 +1187,11 @@ func (w *world) finish(tr *vhlib.Trace, op string, pre string) {
 		w.stopAfter = 0
 	}
 	if res == "ok" {
+		rd := w.host.startReader(readIDs)
 		res = w.host.sync()
+		addReads(rd)
 	}
+	tr.Dist["c17:concurrent_pairs_validated"] += rdN
 	toks, err := w.deriveUpdates()
 	if err != nil {
 		res = "harnesserr:" + clip(err.Error())
@@ -1224,7 +1244,7 @@ func (w *world) finish(tr *vhlib.Trace, op string, pre string) {
 	if len(pref) > 8 {
 		pref = append(pref[:4], pref[len(pref)-4:]...)
 	}
-	tr.Line(op, strings.TrimSpace(fmt.Sprintf("res=ok %s %s %s acc=%s mkidx=%d mkcel=%d hostrej=%d acts=[%s] prej=[%s] pref=[%s] %s", pre, strings.Join(toks, " "), obs, acc, bi, bc, rej, strings.Join(acts, ","), strings.Join(prej, ","), strings.Join(pref, ","), strings.Join(ars, " "))))
+	tr.Line(op, strings.TrimSpace(fmt.Sprintf("res=ok %s %s %s acc=%s mkidx=%d mkcel=%d hostrej=%d rdr=%d:%d:%s acts=[%s] prej=[%s] pref=[%s] %s", pre, strings.Join(toks, " "), obs, acc, bi, bc, rej, rdN, rdBad, joinOr([]string{rdFirst}[:vhlib.B01(rdFirst != "")], ""), strings.Join(acts, ","), strings.Join(prej, ","), strings.Join(pref, ","), strings.Join(ars, " "))))
 }
 
 func (w *world) doMine(tr *vhlib.Trace, n int, to string, pool bool) {
